@@ -7,6 +7,7 @@ import (
 	"fmt"
 	"io"
 	"log/slog"
+	"math"
 	"strings"
 	"sync"
 	"sync/atomic"
@@ -62,6 +63,14 @@ func mkVal(v valT, colOid int) any {
 			return (*int16)(nil)
 		case 16:
 			return (*bool)(nil)
+		case 17:
+			return (*[]byte)(nil)
+		case 2950:
+			return (*[16]byte)(nil)
+		case 700:
+			return (*float32)(nil)
+		case 701:
+			return (*float64)(nil)
 		default:
 			return (*string)(nil)
 		}
@@ -77,6 +86,12 @@ func mkVal(v valT, colOid int) any {
 			return pgtype.Bool{}
 		case 17:
 			return []byte(nil)
+		case 2950:
+			return pgtype.UUID{}
+		case 700:
+			return pgtype.Float4{}
+		case 701:
+			return pgtype.Float8{}
 		default:
 			return pgtype.Text{}
 		}
@@ -92,6 +107,14 @@ func mkVal(v valT, colOid int) any {
 		return int64(v.n)
 	case "bool":
 		return v.n != 0
+	case "uuid":
+		var u [16]byte
+		copy(u[:], v.b)
+		return u
+	case "float4":
+		return math.Float32frombits(uint32(v.n))
+	case "float8":
+		return math.Float64frombits(uint64(v.n))
 	case "unenc":
 		return unencodable{}
 	}
